@@ -232,3 +232,18 @@ Proof.
   - unfold scan_fwd, unlocked. rewrite scan_gen_map by reflexivity. apply (f_equal RPairs). apply scan_gen_ext. intros kv. apply eq_sym, rc_entry_unlocked.
   - unfold scan_rev, unlocked. rewrite <- map_rev. rewrite scan_gen_map by reflexivity. apply (f_equal RPairs). apply scan_gen_ext. intros kv. apply eq_sym, rc_entry_unlocked.
 Qed.
+
+(* ------------------------------------------------------------------ ScanLock lists exactly the locks of the range *)
+Lemma scan_lock_spec cmds s e m k l :
+  (exists ls, snd (step (run cmds) (ScanLock s e m)) = RLocks ls /\
+              (In (k, l) ls <-> in_range s e k = true /\ lock_of (run cmds) k = Some l /\ l_start l <= m)).
+Proof.
+  destruct (run_sorted cmds) as [Hs _]. set (st := run cmds) in *. cbn [step snd]. eexists. split; [reflexivity|].
+  unfold lock_of. rewrite in_flat_map. split.
+  - intros [[k0 v0] [Hin Hx]]. apply filter_In in Hin. destruct Hin as [Hin Hr]. cbn [fst snd] in *.
+    destruct (ks_lock v0) as [l0|] eqn:El; [|destruct Hx]. destruct (N.leb_spec (l_start l0) m); [|destruct Hx].
+    destruct Hx as [E|[]]. inversion E; subst. rewrite (get_ks_in st k v0 Hs Hin). tauto.
+  - intros [Hr [El Hm]]. exists (k, get_ks st k). split.
+    + apply filter_In. split; [|exact Hr]. apply get_ks_mem; [exact Hs|]. intros E0. rewrite E0 in El. discriminate.
+    + cbn [fst snd]. rewrite El. destruct (N.leb_spec (l_start l) m); [left; reflexivity|lia].
+Qed.
